@@ -1,13 +1,16 @@
 package hx
 
 import (
+	"context"
 	"fmt"
 	"math/rand"
 	"sort"
 	"strings"
+	"sync/atomic"
 	"time"
 
 	"github.com/nautilus/gateway"
+	"github.com/nautilus/graphql"
 	"github.com/vektah/gqlparser/v2"
 	"github.com/vektah/gqlparser/v2/ast"
 )
@@ -24,6 +27,10 @@ type FedInput struct {
 	ListOnly []string              `json:"list_only,omitempty"` // with ListLen: repeat only these user ids
 	Faults  []FaultSpec            `json:"faults,omitempty"`
 	Barrier int                    `json:"barrier,omitempty"` // hold service calls until this many are in flight (or 150ms)
+	// CancelAtCall, when > 0: the request runs under a cancellable context that is cancelled when the n-th service
+	// call (arrival order over all services) arrives; that call then takes 3 ms more to answer (the in-process
+	// services, like many queryers, do not watch the context)
+	CancelAtCall int `json:"cancel_at_call,omitempty"`
 }
 
 // FaultSpec makes calls number From..From+Count-1 (arrival order) of one service fail.
@@ -212,6 +219,24 @@ func RunFed(c *Ctx, in FedInput, timeout time.Duration, opts ...gateway.Option) 
 	}
 	fc.Fed = f
 	fc.Injected = InstallFaults(f, in.Faults, in.Barrier)
+	if in.CancelAtCall > 0 {
+		ctx, cancel := context.WithCancel(context.Background())
+		defer cancel()
+		f.Ctx = ctx
+		var arrived int64
+		for _, s := range f.Services {
+			inner := s.Gate
+			s.Gate = func(svc *Service, n int, qi *graphql.QueryInput) {
+				if inner != nil {
+					inner(svc, n, qi)
+				}
+				if atomic.AddInt64(&arrived, 1) == int64(in.CancelAtCall) {
+					cancel()
+					time.Sleep(3 * time.Millisecond)
+				}
+			}
+		}
+	}
 	fc.WantGo, _ = Exec(MonoSchema(), fc.Store, doc, in.OpName, in.Vars)
 	if c.Drv != nil {
 		res, err := c.Drv.Call(MonoCase(MonoSchema(), fc.Store, doc, fc.Op, in.Vars))
